@@ -25,12 +25,21 @@ FmtWidths == {0, 1, 2, 4, 7}
 FmtPrecs == {-1, 0, 1, 3}
 FmtVals == {0, 1, 7, 8, 9, 10, 15, 16, 99, 100, 255, 256, 4095} \cup {-1, -9, -10, -255}
 
+FltVals == {<<0, 0>>, <<1, 0>>, <<100, 0>>, <<5, -1>>, <<3, -1>>, <<25, -1>>, <<1999, -1>>, <<1, -4>>, <<7, -3>>, <<1, -7>>,
+            <<19, -1>>, <<1, -14>>}                               \* <<mag, e>>: mag * 2^e
+WideToks == {Tok([m |-> m, e |-> e]) : m \in {1, 3, -5, 1048575}, e \in {0, 600, 1003, 1023}}
+            \cup {Tok([m |-> m, e |-> -e]) : m \in {1, 3, -5, 1048575}, e \in {600, 1022, 1050, 1073, 1074}}
+WideKs == {0, 1, 53, 1030, 1074, 2100} \cup {-1, -53, -1030, -1074, -1075, -2100}
+
 CasesOf(sc) ==
     CASE sc = "str" -> {<<s, i, j>> : s \in Strs(AlphaStr, LenStr), i \in W(LenStr), j \in W(LenStr)}
       [] sc = "find" -> {<<s, p, i>> : s \in Strs(AlphaFind, LenFind), p \in Strs(AlphaFind, PatFind), i \in W(LenFind)}
       [] sc = "fmt" -> {<<cv, fl, w, pr, v>> : cv \in {100, 120, 88, 111}, fl \in FmtFlags, w \in FmtWidths,
                                                 pr \in FmtPrecs, v \in FmtVals}
       [] sc = "num" -> Grid \X Grid
+      [] sc = "flt" -> {<<cv, fl, w, pr, neg, v>> : cv \in {102, 101, 103}, fl \in FmtFlags, w \in {0, 9},
+                                                     pr \in {-1, 0, 2}, neg \in BOOLEAN, v \in FltVals}
+      [] sc = "wide" -> {x \in WideToks : Representable(x)} \X WideKs \X WideKs
 
 VARIABLES tc, done                      \* tc = <<scope, case>>
 vars == <<tc, done>>
@@ -206,4 +215,105 @@ NumLaws == (Scope = "num" /\ done) =>
           LET RECURSIVE Times(_)
               Times(k) == IF k = 0 THEN One ELSE DMul(Times(k - 1), dx)
           IN P(x, y) = Def(<<Tok(Times(Tok(dy)[2]))>>))
+-----------------------------------------------------------------------------
+(* floating conversions, case <<conv, flags, width, prec, neg, <<mag, e>>>>:  *)
+(* the printed text, read back as a decimal number, is the correctly        *)
+(* rounded value (|x - printed| <= 1/2 unit of the last printed digit, ties  *)
+(* to even) in the style the conversion prescribes                          *)
+IndexOf(t, bs) == IF \E k \in 1..Len(t) : t[k] \in bs
+                  THEN CHOOSE k \in 1..Len(t) : t[k] \in bs /\ \A i \in 1..(k - 1) : t[i] \notin bs
+                  ELSE 0
+(* [n, t]: printed value = n * 10^t, n built from all mantissa digits *)
+ParseDec(body) ==
+    LET ep == IndexOf(body, {101, 69})
+        mant == IF ep = 0 THEN body ELSE SubSeq(body, 1, ep - 1)
+        pp == IndexOf(mant, {46})
+        digs == SelectSeq(mant, LAMBDA b : b # 46)
+        fd == IF pp = 0 THEN 0 ELSE Len(mant) - pp
+        ex == IF ep = 0 THEN 0
+              ELSE (IF body[ep + 1] = 45 THEN -1 ELSE 1) * DecVal(SubSeq(body, ep + 2, Len(body)))
+    IN [n |-> DecVal(digs), t |-> ex - fd, nd |-> Len(digs), lead |-> digs[1] - 48, ex |-> ex, expdigits |-> IF ep = 0 THEN 0 ELSE Len(body) - ep - 1]
+(* 2 * |mag * 2^e - n * 10^t| compared with 10^t, all scaled to integers (e <= 0) *)
+ErrTimes2(mag, e, n, t) ==
+    IF t >= 0 THEN 2 * Abs(mag - n * (10 ^ t) * (2 ^ (-e))) ELSE 2 * Abs(mag * (10 ^ (-t)) - n * (2 ^ (-e)))
+Unit(e, t) == IF t >= 0 THEN (10 ^ t) * (2 ^ (-e)) ELSE 2 ^ (-e)
+CorrectlyRounded(mag, e, pd) ==
+    /\ ErrTimes2(mag, e, pd.n, pd.t) <= Unit(e, pd.t)
+    /\ (ErrTimes2(mag, e, pd.n, pd.t) = Unit(e, pd.t) => pd.n % 2 = 0)
+
+FltLaws == (Scope = "flt" /\ done) =>
+    LET conv == c[1]  fl == c[2]  w == c[3]  pr == c[4]  neg == c[5]  mag == c[6][1]  e == c[6][2]
+        flt == <<"fin", neg, mag, e>>
+        tok == Tok([m |-> IF neg THEN -mag ELSE mag, e |-> e])
+        full == FmtFloat(conv, fl, w, pr, flt)
+        bare == FmtFloat(conv, fl, 0, pr, flt)
+        text == Directive(fl, WidthDigits(w), PrecDigits(pr), conv)
+        body == IF bare[1] \in {45, 43, 32} THEN Tail(bare) ELSE bare
+        pd == ParseDec(body)
+        P == IF pr < 0 THEN 6 ELSE IF pr = 0 THEN 1 ELSE pr
+        small == pr >= 0                                  \* keeps the read-back inside 32-bit integers
+    IN
+    (* through the front door (a negative zero cannot be written as a token) *)
+    /\ (~(neg /\ mag = 0) => Eval("format", <<S(text), tok>>) = VOk(<<S(full)>>))
+    (* an omitted precision is 6 *)
+    /\ (pr < 0 => full = FmtFloat(conv, fl, w, 6, flt))
+    (* field width and padding *)
+    /\ Len(full) = SMax(w, Len(bare))
+    /\ (45 \in fl => full = bare \o Spaces(Len(full) - Len(bare)))
+    /\ ((45 \notin fl /\ 48 \notin fl) => full = Spaces(Len(full) - Len(bare)) \o bare)
+    /\ ((45 \notin fl /\ 48 \in fl) =>
+          full = SubSeq(bare, 1, Len(bare) - Len(body)) \o Zeros(Len(full) - Len(bare)) \o body)
+    (* sign *)
+    /\ (neg => bare[1] = 45)
+    /\ (~neg /\ 43 \in fl => bare[1] = 43)
+    /\ (~neg /\ 43 \notin fl /\ 32 \in fl => bare[1] = 32)
+    /\ (~neg /\ 43 \notin fl /\ 32 \notin fl => bare = body /\ body[1] \in 48..57)
+    (* shape and value *)
+    /\ (conv = 102 => /\ pd.expdigits = 0 /\ -pd.t = (IF pr < 0 THEN 6 ELSE pr)
+                      /\ (IndexOf(body, {46}) # 0 <=> (pr # 0 \/ 35 \in fl))
+                      /\ (small => CorrectlyRounded(mag, e, pd)))
+    /\ (conv = 101 => /\ pd.expdigits >= 2 /\ pd.nd = (IF pr < 0 THEN 6 ELSE pr) + 1
+                      /\ (mag # 0 => pd.lead # 0) /\ (mag = 0 => pd.n = 0 /\ pd.ex = 0)
+                      /\ (IndexOf(body, {46}) # 0 <=> (pr # 0 \/ 35 \in fl))
+                      /\ (small => CorrectlyRounded(mag, e, pd)))
+    /\ (conv = 103 =>
+          (* the value printed is that of %e with precision P-1; the style is fixed iff -4 <= X < P *)
+          LET eb == FmtFloat(101, {}, 0, P - 1, <<"fin", FALSE, mag, e>>)
+              pe == ParseDec(eb)
+          IN /\ LET t0 == SMin(pd.t, pe.t) IN pd.n * (10 ^ (pd.t - t0)) = pe.n * (10 ^ (pe.t - t0))
+             /\ ((pd.expdigits = 0) <=> (pe.ex >= -4 /\ pe.ex < P))
+             /\ (35 \in fl => pd.nd >= P)
+             /\ (35 \notin fl /\ IndexOf(body, {46}) # 0 =>
+                    LET m == IF IndexOf(body, {101, 69}) = 0 THEN body ELSE SubSeq(body, 1, IndexOf(body, {101, 69}) - 1)
+                    IN m[Len(m)] \notin {48, 46}))
+
+-----------------------------------------------------------------------------
+(* ldexp / frexp over the whole exponent range, case <<x, k1, k2>> *)
+WideLaws == (Scope = "wide" /\ done) =>
+    LET x == c[1]  k1 == c[2]  k2 == c[3]
+        dx == D(x)
+        r1 == MLdexp(x, k1)[1]
+        fr == MFrexp(x)[2]
+        n == NormME(dx.m, dx.e)
+        top == n.e + k1 + BitLen(Abs(n.m)) - 1
+        sh == -1074 - (n.e + k1)
+    IN
+    (* frexp recomposes every finite double, subnormals included *)
+    /\ MFrexp(x)[1] = "ok" /\ MLdexp(fr[1], fr[2][2]) = <<x>>
+    /\ (dx.m # 0 => BitLen(Abs(D(fr[1]).m)) = -D(fr[1]).e)             \* 1/2 <= |f| < 1
+    (* inside the range ldexp is exact, above it an infinity with the sign of x *)
+    /\ ((dx.m # 0 /\ top <= 1023 /\ sh <= 0) => r1 = Tok([m |-> n.m, e |-> n.e + k1]))
+    /\ ((dx.m # 0 /\ top > 1023) => r1 = Inf(Sgn(dx.m)))
+    (* below 2^-1074: the nearest multiple of 2^-1074, ties to even; never changes sign *)
+    /\ ((dx.m # 0 /\ sh > 0) =>
+          /\ IsFinite(r1) /\ Sgn(D(r1).m) \in {0, Sgn(dx.m)}
+          /\ LET q == IF D(r1).m = 0 THEN 0 ELSE Abs(Al(D(r1), -1074)) IN
+             IF sh <= 24 THEN /\ 2 * Abs(Abs(n.m) - q * (2 ^ sh)) <= 2 ^ sh
+                              /\ (2 * Abs(Abs(n.m) - q * (2 ^ sh)) = 2 ^ sh => q % 2 = 0)
+             ELSE q = 0)
+    (* the result is a double *)
+    /\ Representable(r1)
+    (* ldexp composes while no rounding happened in between *)
+    /\ ((dx.m # 0 /\ top <= 1023 /\ sh <= 0) => MLdexp(r1, k2) = MLdexp(x, k1 + k2))
+    /\ MLdexp(x, 0) = <<x>>
 =============================================================================
